@@ -496,3 +496,66 @@ func cloneSelsDeep(sels []*fl.Sel) []*fl.Sel {
 	}
 	return out
 }
+
+// ---------------------------------------------------------------- universes from S-expressions (corpus)
+
+func fvalOfSexp(x *fl.SX) (*fl.FVal, error) {
+	switch x.Head() {
+	case "sc":
+		j, err := fl.JSONOfSexp(x.List[1])
+		if err != nil {
+			return nil, err
+		}
+		return &fl.FVal{Kind: fl.FSc, JSON: j}, nil
+	case "ref":
+		return &fl.FVal{Kind: fl.FRef, Type: x.List[1].Str, Key: x.List[2].Str}, nil
+	case "nullref":
+		return &fl.FVal{Kind: fl.FNullRef}, nil
+	case "lst":
+		out := &fl.FVal{Kind: fl.FLst}
+		for _, it := range x.List[1:] {
+			v, err := fvalOfSexp(it)
+			if err != nil {
+				return nil, err
+			}
+			out.Items = append(out.Items, v)
+		}
+		return out, nil
+	case "err":
+		return &fl.FVal{Kind: fl.FErr}, nil
+	case "echo":
+		return &fl.FVal{Kind: fl.FEcho}, nil
+	case "lookup":
+		return &fl.FVal{Kind: fl.FLookup, Type: x.List[1].Str, Arg: x.List[2].Str}, nil
+	case "req":
+		out := &fl.FVal{Kind: fl.FReq}
+		for _, it := range x.List[1:] {
+			out.Req = append(out.Req, it.Str)
+		}
+		return out, nil
+	}
+	return nil, fmt.Errorf("fval: %s", x.Head())
+}
+
+// UniverseOfSexp reads back Universe.Sexp().
+func UniverseOfSexp(x *fl.SX) (*fl.Universe, error) {
+	if x.Head() != "universe" {
+		return nil, fmt.Errorf("not a universe")
+	}
+	u := &fl.Universe{}
+	for _, ex := range x.List[1:] {
+		if ex.Head() != "ent" || len(ex.List) < 3 {
+			return nil, fmt.Errorf("bad entity")
+		}
+		e := &fl.Entity{Type: ex.List[1].Str, Key: ex.List[2].Str}
+		for _, fx := range ex.List[3:] {
+			v, err := fvalOfSexp(fx.List[2])
+			if err != nil {
+				return nil, err
+			}
+			e.Fields = append(e.Fields, fl.FV{Name: fx.List[1].Str, Val: v})
+		}
+		u.Ents = append(u.Ents, e)
+	}
+	return u, nil
+}
